@@ -3,12 +3,12 @@ SPEC = {
     "id": "C10",
     "coq_targets": ["theories/Snap/Props_C10.vo", "theories/Snap/Cases_C10.vo", "theories/Snap/Findings.vo"],
     "props": "theories/Snap/Props_C10.v",
-    "harness": [{"bin": "h_snap_token", "n": {"quick": 760, "thorough": 6000},
+    "harness": [{"bin": "h_snap_token", "n": {"quick": 930, "thorough": 6000},
                  "known_bits": {16: "C10-malformed-aud"}}],
-    "rule": "v0 and v1 SNAP tokens minted with the crate's constant test key and a second untrusted key; every single-field mutation of header (alg, kid, typ, extra member), of every claim (removed, retyped to each JSON kind, retimed to now-3600..now+3600 as integer and float), ver, aud, duplicates, PSSID shapes, signature damage, header/payload/signature splicing between two valid tokens, base64 padding/alphabet variants, wrong segment counts; then random combinations of 1-3 mutations and random strings; each run against SnapTokenVerifier::verify and against the real router (AuthMiddleware + register handler, lifetime recorded); a case is distinct by its construction (label, members, signature treatment)",
+    "rule": "v0 and v1 SNAP tokens minted with the crate's constant test key and a second untrusted key; every single-field mutation of header (alg, kid, typ, extra member), of every claim (removed, retyped to each JSON kind, retimed to now-3600..now+3600 incl. the exact leeway edge now-61/-60/-59 and now+59/+60/+61, as integer and float), ver, aud, duplicates, PSSID shapes, signature damage, header/payload/signature splicing between two valid tokens, base64 padding/alphabet variants, wrong segment counts; then random combinations of 1-3 mutations and random strings; each run against SnapTokenVerifier::verify and against the real router (AuthMiddleware + register handler, lifetime recorded); a case is distinct by its construction (label, members, signature treatment)",
     "assumptions": ["clock between 1970-01-01T00:01:00Z and 2^63 s",
                     "string -> (header members, payload members) parsing, Ed25519, Uuid::parse_str and base64url of the v1 PSSID are oracles supplied with each token",
-                    "the verifier reads the system clock: correspondence cases keep every time >= 30 s away from the leeway edge; the edge itself is covered by the theorem only",
+                    "the verifier reads the system clock: every case is run inside one wall-clock second (re-run when the second changes between start and end), so the recorded now is the one the verifier saw and the leeway edge (exp = now-60/-61, nbf = now+60/+61) is part of the correspondence",
                     "JWKS key resolution is modelled as a kid -> key map (the result of JwksKeyStore::await_key); the correspondence runs both the static-key configuration (verify + router) and a configuration with a real JwksKeyStore fed from a loopback HTTP endpoint (verify only; skipped and counted as jwks.unavailable if loopback HTTP is not possible)"],
     "trusted_extra": ["vendored jsonwebtoken source (version pinned by /repo/Cargo.lock) read by tools/gen.d/snap.py for the Validation defaults"],
 }
